@@ -3,14 +3,14 @@
 //                                     | :test <n> stmt*n <n> stmt*n <n> stmt*n          (setup, body, teardown)
 //                                stmt :set <loc> <val> | :wr <loc> <val> | :fail | :failc | :thr | :thrstd
 // Observation: per :test  ":t <failed> <npre> ids.. <npost> ids.. <pool[0..39]>", per :rm/:reset  ":c <n> ids.."
+#include <stdexcept>
+#include <map>
+#include "hlib.h"
 #include "CppUTest/TestHarness.h"
 #include "CppUTest/TestRegistry.h"
 #include "CppUTest/TestOutput.h"
 #include "CppUTest/TestPlugin.h"
 #include "CppUTest/TestResult.h"
-#include <stdexcept>
-#include <map>
-#include "hlib.h"
 using namespace hl;
 
 enum { POOL = 40 };
